@@ -188,6 +188,12 @@ Fixpoint tg_backwalk (fuel : nat) (ns : list (nat * tnode)) (es : list (nat * na
 Definition tg_chain (g : tgraph) (terminal : nat) : option (list tnode) :=
   tg_backwalk (S (length (tg_nodes g))) (tg_nodes g) (tg_edges g) terminal [].
 
+(* ids are handed out by the counter: every node key and every edge endpoint is below next_id
+   (an invariant of insert_node / connect as the builders use them) *)
+Definition tg_fresh (g : tgraph) : Prop :=
+  (forall k n, In (k, n) (tg_nodes g) -> (k < tg_next g)%nat) /\
+  (forall a b, In (a, b) (tg_edges g) -> (a < tg_next g)%nat /\ (b < tg_next g)%nat).
+
 (* the operators behind the source of a chain (None: the chain does not start with the source or
    contains a second one; the runner reports an error) *)
 Fixpoint chain_ops (c : list tnode) : option (list tstep) :=
